@@ -1048,9 +1048,9 @@ func genTrieCase(r *Rng, adversarial bool) Sx {
 
 func gen(r *Rng, tier string, emit func(Sx)) {
 	r = NewRng(r.U64())
-	nTrie, nBlock, nrem := 260, 24, int64(30)
+	nTrie, nBlock, nrem := 220, 20, int64(30)
 	if tier == "thorough" {
-		nTrie, nBlock, nrem = 5000, 400, -1
+		nTrie, nBlock, nrem = 3000, 300, -1
 	}
 	for i := 0; i < nTrie; i++ {
 		emit(genTrieCase(r, i%5 == 4))
